@@ -13,6 +13,26 @@ package types
 //@   trusted
 //@   ensures (err == nil) == distParamsValid(snap(p))
 
+//@ // ---- validation of one sub distributor (no-panic sweep; the loops carry "the prefix was validated") ----
+//@ pred sharesChecked(shares, n) = forall j :: {shares[j]} 0 <= j && j < n ==> shares[j] != nil && !shares[j].Share.IsNil() && 0 <= shares[j].Share && shares[j].Share < P
+//@ func (destinations Destinations) CheckIfSharesSumIsBetween0And1() (err)
+//@   requires !destinations.BurnShare.IsNil() && 0 <= destinations.BurnShare && destinations.BurnShare < P
+//@   requires sharesChecked(destinations.Shares, len(destinations.Shares)) && len(destinations.Shares) <= 1000000
+//@   prop C20
+//@ loop Destinations.CheckIfSharesSumIsBetween0And1#1
+//@   invariant 0 <= \i && \i <= len(destinations.Shares)
+//@   invariant !shareSum.IsNil() && 0 <= shareSum && shareSum <= (\i + 1) * P
+//@ func (destinations Destinations) Validate(primaryShareName) (err)
+//@   requires len(destinations.Shares) <= 1000000
+//@   prop C20
+//@ loop Destinations.Validate#1
+//@   invariant 0 <= \i && \i <= len(destinations.Shares)
+//@   invariant sharesChecked(destinations.Shares, \i)
+//@   invariant !destinations.BurnShare.IsNil() && 0 <= destinations.BurnShare && destinations.BurnShare < P
+//@ func (subdistributor SubDistributor) Validate() (err)
+//@   requires len(subdistributor.Destinations.Shares) <= 1000000
+//@   prop C20
+
 //@ // ---- C20: entry points under the no-panic sweep (no functional claim here: they must not panic for any field values) ----
 //@ func (msg MsgUpdateParams) ValidateBasic() (r0)
 //@   requires msg != nil
@@ -24,8 +44,8 @@ package types
 //@   requires msg != nil
 //@   prop C20
 //@ func (msg MsgUpdateSubDistributorParam) ValidateBasic() (r0)
-//@   requires msg != nil
-//@   prop C20x
+//@   requires msg != nil && (msg.SubDistributor != nil ==> len(msg.SubDistributor.Destinations.Shares) <= 1000000)
+//@   prop C20
 
 //@ // ---- declared effects (checked per call instruction by the effect checker; anything not listed is effect-free) ----
 //@ effects SetMaccPerms global.write
